@@ -70,7 +70,8 @@ def norm(v):
         return [norm(x) for x in v]
     if isinstance(v, Void) or v is None:
         return None
-    raise TypeError(type(v))
+    # anything else is not a value a field can hold (e.g. a stream object that was mistaken for a field value): it never equals a model value
+    return f"<not a field value: {type(v).__name__}>"
 
 
 def same(a, b) -> bool:
